@@ -1,4 +1,10 @@
-import Ivy.L1.Machine
+import Ivy.L1.Exec
+import Ivy.Mon.C01
+import Ivy.Mon.C02
+import Ivy.Mon.C03
+import Ivy.Mon.C04
+import Ivy.Mon.C06
+import Ivy.Mon.C07
 import Ivy.Drv.Util
 /-! T-replay driver for the loop: reads the log of /verif/harness/loop_h.c, feeds the environment
 records to the L1 machine and compares the library records with the machine's outputs. -/
@@ -15,6 +21,9 @@ structure S where
   diverged : Nat := 0
   cov : List (String × Nat) := []
   stop : Bool := false
+  evs : Array Ev := #[]          -- the implementation's records, for the monitors
+  evPending : Option (List String) := none
+  evStop : Bool := false
 
 def bump (c : List (String × Nat)) (k : String) : List (String × Nat) :=
   match c.find? (·.1 == k) with
@@ -131,6 +140,10 @@ def diverge (s : S) (msg : String) : S × List String :=
 
 /-- feed an input to the machine, then settle -/
 def feed (s : S) (m : St) (i : Input) (what : String) : S × List String :=
+  let envMsg := if envOk m i then [] else [s!"ENVBAD line {s.line}: input '{what}' is outside the assumed environment contract (envOk)"]
+  let (s', o) := feedCore s m i what
+  (s', envMsg ++ o)
+where feedCore (s : S) (m : St) (i : Input) (what : String) : S × List String :=
   match input m i with
   | none => diverge s s!"the model does not accept input '{what}' in its current state (pc={repr m.pc})"
   | some (m', outs) =>
@@ -241,9 +254,120 @@ def step (s : S) (ws : List String) : S × List String :=
     else diverge s s!"unknown record {e}"
   | some _, _ => diverge s s!"unknown record {ws}"
 
+/-! ### the implementation's own records as `Ev`s (independent of the model's predictions) -/
+
+def parseInterest (s : String) : List (FdId × Bands) :=
+  if s == "" then [] else
+  (s.splitOn ",").filterMap fun it =>
+    match it.splitOn ":" with
+    | [nm, b] => (fdOfName nm).map fun f => (f, ({ i := b.contains 'i', o := b.contains 'o', e := false } : Bands))
+    | _ => none
+
+def parseWait (ws : List String) : Option Out :=
+  let get (k : String) : String := (ws.find? (·.startsWith (k ++ "="))).map (fun w => (w.drop (k.length + 1)).toString) |>.getD ""
+  let to := get "to"
+  let tmo : Option Timeout :=
+    if to == "inf" then some .inf
+    else if to.endsWith "ns" then (to.dropEnd 2).toString.toInt?.map Timeout.ns
+    else if to.endsWith "ms" then (to.dropEnd 2).toString.toInt?.map Timeout.ms
+    else none
+  let kt := get "ktimer"
+  let ktv : Option (Option TS) :=
+    if kt == "none" then none else if kt == "off" then some none
+    else match kt.toInt? with
+      | some ns => some (some ⟨ns / 1000000000, ns % 1000000000⟩)
+      | none => none
+  let kk := get "kick"
+  let kkv : Option Bool := if kk == "armed" then some true else if kk == "idle" then some false else none
+  tmo.map fun t => Out.wait (get "prim") t (parseInterest (get "int")) ktv kkv
+
+def parseCb (nm : String) (rest : List String) : Option Cb :=
+  match kindOf nm, rest with
+  | some (0, f), [b] => some (.fd f (if b == "err" then 0 else if b == "in" then 1 else 2))
+  | some (1, t), _ => some (.timer t)
+  | some (2, k), _ => some (.task k)
+  | some (3, e), _ => some (.event e)
+  | some (4, r), [] => some (.raw r)
+  | some (4, r), [b] => some (.fd (rawFd r) (if b == "err" then 0 else if b == "in" then 1 else 2))
+  | _, _ => none
+
+def parseGt (s : String) : List (FdId × KEv) :=
+  if s == "" then [] else
+  (s.splitOn ",").filterMap fun it =>
+    match it.splitOn ":" with
+    | [nm, b] => (fdOfName nm).map fun f => (f, parseKEv b)
+    | _ => none
+
+/-- translate one log line into monitor events -/
+def toEvs (s : S) (ws : List String) : S × List Ev :=
+  match ws with
+  | "API" :: name :: args =>
+    if deferred name then ({ s with evPending := some (name :: args) }, [])
+    else match parseApi (name :: args) true with
+      | some a => (s, [Ev.inp (.api a)])
+      | none => (s, [])
+  | ["RET", v] =>
+    match s.evPending with
+    | some aw =>
+      let s := { s with evPending := none }
+      match parseApi aw (v == "0"), v.toInt? with
+      | some a, some v => (s, [Ev.inp (.api a), Ev.out (.ret v)])
+      | _, _ => (s, [])
+    | none => (s, [])
+  | "FATAL" :: _ =>
+    match s.evPending with
+    | some aw =>
+      match parseApi aw true with
+      | some a => ({ s with evPending := none }, [Ev.inp (.api a), Ev.out (.fatal "")])
+      | none => (s, [Ev.out (.fatal "")])
+    | none => (s, [Ev.out (.fatal "")])
+  | "CB" :: nm :: rest =>
+    let rest := rest.filter (fun w => !(w.startsWith "reg="))
+    match parseCb nm rest with
+    | some c => (s, [Ev.out (.cb c)])
+    | none => (s, [])
+  | ["END"] => (s, [Ev.inp .handlerEnd])
+  | ["TIME", v] => match v.toInt? with
+    | some ns => (s, [Ev.inp (.time ⟨ns / 1000000000, ns % 1000000000⟩)])
+    | none => (s, [])
+  | "WAIT" :: rest => match parseWait rest with
+    | some o => (s, [Ev.out o])
+    | none => (s, [])
+  | ["GT"] => (s, [Ev.gt []])
+  | ["GT", g] => (s, [Ev.gt (parseGt g)])
+  | ["WRET", "EINTR"] => (s, [Ev.inp (.wret .eintr)])
+  | ["WRET", "ENOSYS"] => (s, [Ev.inp (.wret .enosys)])
+  | ["WRET", ev] =>
+    let body := (ev.drop 3).toString
+    let items := if body == "" then [] else body.splitOn ","
+    (s, [Ev.inp (.wret (.events (items.filterMap parseWItem)))])
+  | ["RAWREAD", _, r] => (s, [Ev.inp (.rawRead (r == "ok"))])
+  | ["XPOST", e] => match objNum e with
+    | some e => (s, [Ev.inp (.xpost e)])
+    | none => (s, [])
+  | ["FREE", o] => match kindOf o with
+    | some (k, n) => (s, [Ev.inp (.free k n)])
+    | none => (s, [])
+  | ["INIT", o] => match kindOf o with
+    | some (k, n) => (s, [Ev.inp (.init k n)])
+    | none => (s, [])
+  | ["MAINRET"] => (s, [Ev.out .mainRet])
+  | _ => (s, [])
+
+def stepAll (s : S) (ws : List String) : S × List String :=
+  let (s, evs) := toEvs s ws
+  let s := { s with evs := evs.foldl Array.push s.evs }
+  step s ws
+
 def run : IO Unit := do
   let out ← IO.getStdout
-  let s ← loopLines (← IO.getStdin) out ({} : S) step
+  let s ← loopLines (← IO.getStdin) out ({} : S) stepAll
+  let evs := s.evs.toList
+  for (nm, v) in [("C01", Ivy.Mon.C01.verdict evs), ("C02", Ivy.Mon.C02.verdict evs), ("C03", Ivy.Mon.C03.verdict evs),
+                  ("C04", Ivy.Mon.C04.verdict evs), ("C06", Ivy.Mon.C06.verdict evs), ("C07", Ivy.Mon.C07.verdict evs)] do
+    match v with
+    | none => out.putStrLn s!"MON {nm} ok"
+    | some e => out.putStrLn s!"MON {nm} VIOLATION {e}"
   out.putStrLn s!"SUMMARY lines {s.line} agree {s.agree} diverged {s.diverged}"
   for (k, n) in s.cov do
     out.putStrLn s!"COV {k} {n}"
